@@ -418,7 +418,7 @@ struct Interp
 	// classes
 	bool declinedWithEnqueue = false, slotReuse = false, takePeekBetweenPartial = false, sawPartial = false;
 	bool emptyInsideListener = false, tieAcrossRounds = false, reenqueuedTie = false;
-	bool copiedWithPending = false, dirty = false, transferThenUse = false, clearedNonEmpty = false, destroyedNonEmpty = false;
+	bool copiedWithPending = false, dirty = false, transferThenUse = false, clearedNonEmpty = false, destroyedNonEmpty = false, selfAssignInsideCall = false;
 	int rounds = 0; long consumed = 0; bool enqueuedInCall = false;
 	int transferStage = 0;
 
@@ -799,7 +799,10 @@ struct Interp
 		// drain probe: what is still queued = a subsequence of mayBeGone (in order) followed by exactly the model's pending events
 		std::vector<MEvent> got;
 		const bool emptyBefore = impl->emptyQ(slot);
-		for(int guard = 0; guard < 200; ++guard) {
+		// (bounded by what can possibly be there: listener scripts that enqueue two events per processed one grow the queue
+		// past any fixed number; a fixed bound of 200 once made the probe stop early and report the rest as lost)
+		const size_t probeBound = q[slot].pending.size() + mayBeGone.size() + 16;
+		for(size_t guard = 0; guard < probeBound; ++guard) {
 			MEvent e; bool intact = false;
 			if(! impl->take(slot, e, intact, false)) break;
 			if(! intact) { fail("fault.payload", "C09", "an event that survived the exception has a damaged payload"); return; }
@@ -1018,7 +1021,11 @@ struct Interp
 		}
 		case Q_COPYASSIGN: {
 			int src = pickLive(op.b);
-			if(src < 0 || slotBusy(slot) || ! m.pending.empty() || m.dqn) break; // see DESIGN C10: destination without pending events
+			if(src < 0) break;
+			// assigning a queue to itself takes over nothing and is allowed at any moment, also from a listener the queue is
+			// running; any other assignment: see DESIGN C10 (idle destination without pending events)
+			if(src != slot && (slotBusy(slot) || ! m.pending.empty() || m.dqn)) break;
+			if(src == slot && slotBusy(slot)) selfAssignInsideCall = true;
 			lib->copyAssign(slot, src);
 			if(src != slot) {
 				for(int k = 0; k < kKeys; ++k) m.lists[k].nodes.clear();
@@ -1253,6 +1260,7 @@ Grammar makeGrammar(const std::string & prop)
 		{ Q_PEEK, "peekEvent", 1, ArgSpec(0, 0), ArgSpec(0, 0), slot, -1, 0 },
 		{ Q_CLEAR, "clearEvents", 1, ArgSpec(0, 0), ArgSpec(0, 0), slot, -1, 0 },
 		{ Q_DISPATCH, "dispatch", 1, key, val, slot, -1, 0 },
+		{ Q_COPYASSIGN, "copyAssign", 1, ArgSpec(0, 0), ArgSpec(0, 3), slot, -1, 0 }, // with one queue alive: self assignment
 	};
 	g.levels.push_back(body);
 	// level 2: predicate scripts
@@ -1299,6 +1307,7 @@ Verdict runOnce(const Program & p, const std::string & prop, FaultPlan * plan)
 		cls(in.emptyInsideListener, "emptyQueue_inside_processing");
 		cls(in.tieAcrossRounds, "ordered_tie");
 		cls(in.copiedWithPending, "copied_with_pending_events");
+		cls(in.selfAssignInsideCall, "queue_assigned_to_itself_inside_a_processing_call");
 		cls(in.dirty, "dirty_storage");
 		cls(in.transferStage == 2, "transfer_then_use");
 		cls(in.clearedNonEmpty, "cleared_nonempty");
